@@ -22,7 +22,7 @@ from pathlib import Path
 
 V = Path("/verif")
 REPO = Path("/repo")
-OUT = V / "out" / "auto"
+OUT = V / "out" / os.environ.get("AUTO_OUT", "auto")
 
 ROR = [("<=", "<"), (">=", ">"), ("==", "!="), ("!=", "=="), ("<", "<="), (">", ">=")]
 LCR = [("&&", "||"), ("||", "&&"), (" and ", " or "), (" or ", " and ")]
@@ -193,7 +193,7 @@ def run(idx):
         os.close(os.open(OUT / f"{idx}.lock", os.O_CREAT | os.O_EXCL))
     except FileExistsError:
         return {"index": idx, "status": "taken"}
-    wt = f"/var/tmp/auto_{idx}"
+    wt = f"/var/tmp/{os.environ.get('AUTO_OUT', 'auto')}_{idx}"
     sh(f"git -C /repo worktree remove --force {wt}; rm -rf {wt}")
     r = sh(f"/verif/tools/mk_worktree.sh {wt}")
     try:
